@@ -42,9 +42,18 @@ func (o ixOp) String() string {
 
 type ixDoc struct{ X, YZ any }
 
+// yScalar as the YZ of a document: the document carries a bare scalar at y, the parent of the indexed
+// path y.z - there is no value at y.z, so nothing of it may be indexed under that field.
+type yScalar string
+
+func (y yScalar) String() string { return "<y is the scalar " + string(y) + ">" }
+
 func (d ixDoc) get(f string) any {
 	if f == "x" {
 		return d.X
+	}
+	if _, ok := d.YZ.(yScalar); ok {
+		return nil
 	}
 	return d.YZ
 }
@@ -424,7 +433,9 @@ func ixApply(idx *kvindex.KVIndex, op ixOp) (err error, pan string) {
 	if op.X != nil {
 		doc["x"] = op.X
 	}
-	if op.YZ != nil {
+	if ys, ok := op.YZ.(yScalar); ok {
+		doc["y"] = string(ys)
+	} else if op.YZ != nil {
 		doc["y"] = map[string]interface{}{"z": op.YZ}
 	}
 	return idx.AddDoc(op.Doc, doc), ""
@@ -473,8 +484,8 @@ func C09(tier string) int {
 		ops = append(ops, ixOp{Kind: "AddField", Field: f})
 	}
 	xs := []any{nil, "a", "ab", -1.5, 0.0, 2.0, 1e9} // the two string terms are prefix-related on purpose
-	yzs := []any{nil, "a", 3.0}
-	for _, d := range []string{"d1", "d11"} { // so are the document ids
+	yzs := []any{nil, "a", 3.0, yScalar("a")}        // the last one: a scalar where the parent object of the indexed path should be
+	for _, d := range []string{"d1", "d11"} {        // so are the document ids
 		for _, x := range xs {
 			for _, yz := range yzs {
 				if !thorough && yz != nil && !(x == nil || x == "a" || x == 2.0) {
